@@ -874,7 +874,7 @@ def split_variants(tpls, prefix="split_"):
 def _with_splits(fn):
     def wrapped(tier):
         base = fn(tier) + cross(tier).get(fn.__name__, [])
-        return base + split_variants(base) + nested(tier).get(fn.__name__, []) + nested2(tier).get(fn.__name__, [])
+        return base + split_variants(base) + nested(tier).get(fn.__name__, []) + nested2(tier).get(fn.__name__, []) + nested3(tier).get(fn.__name__, []) + renamers(tier).get(fn.__name__, [])
     wrapped.__name__ = fn.__name__
     wrapped.__doc__ = fn.__doc__
     return wrapped
@@ -1154,5 +1154,42 @@ def nested3(tier):
     out = {}
     for prop, oname, ob, rows in outer:
         for iname, ib in inner:
+            if (oname, iname) == ("setdiff", "concat"):
+                continue        # (DS_S || DS_S2) setdiff DS_S2 has the keys of DS_S2 only: always empty
             out.setdefault(prop, []).append(T("s1_%s_of_%s" % (oname, iname), ob(ib), rows))
+    return out
+
+
+def renamers(tier):
+    """operators that rename the single measure (comparison -> bool_var, length -> int_var, count -> int_var, isnull, between, cast) used as OPERANDS:
+    the names an enclosing operator sees must be the names the operand's SQL produces"""
+    gt = lambda d="DS_4": binop(">", d, 1)  # noqa: E731
+    out = {"c01": [], "c02": [], "c03": [], "c05": []}
+    out["c01"] += [
+        T("r_length_plus", binop("+", unop("length", "DS_S"), 1), 2),
+        T("r_count_plus", binop("+", agg("count", "DS_4", "group by", ["Id_1"]), 1), 3),
+        T("r_isnull_or_cmp", binop("or", unop("isnull", "DS_4"), binop(">", "DS_5", 0)), 2),
+        T("r_between_and_cmp", binop("and", between("DS_4", 1, 2), binop(">", "DS_5", 0)), 2),
+        T("r_not_cmp", unop("not", gt()), 2),
+        T("r_cmp_eq_cmp", binop("=", gt(), binop("<", "DS_5", 1)), 2),
+        T("r_length_gt", binop(">", unop("length", "DS_S"), 1), 2),
+        T("r_length_plus_length", binop("+", unop("length", "DS_S"), unop("length", "DS_S2")), 2),
+        T("r_in_and_cmp", binop("and", in_("DS_4", [1, 2]), gt("DS_5")), 2),
+        T("r_nvl_cmp", binop("nvl", gt(), const(True)), 2),
+    ]
+    out["c02"] += [
+        T("r_rename_boolvar", rename(gt(), [("bool_var", "Me_9")]), 2),
+        T("r_filter_boolvar", filter_(gt(), "bool_var"), 2),
+        T("r_calc_not_boolvar", calc(gt(), [(None, "Me_9", unop("not", "bool_var"))]), 2),
+        T("r_filter_intvar", filter_(unop("length", "DS_S"), binop(">", "int_var", 1)), 2),
+        T("r_keep_boolvar", keep(calc(gt(), [(None, "Me_9", const(1))]), ["Me_9"]), 2),
+    ]
+    out["c03"] += [
+        T("r_sum_of_length", agg("sum", unop("length", "DS_S"), "group by", ["Id_1"]), 3),
+        T("r_count_of_cmp", agg("count", gt(), "group by", ["Id_1"]), 3),
+    ]
+    out["c05"] += [
+        T("r_union_of_cmps", setop("union", [gt(), gt("DS_5")]), 2),
+        T("r_setdiff_of_lengths", setop("setdiff", [unop("length", "DS_S"), unop("length", "DS_S2")]), 2),
+    ]
     return out
